@@ -10,13 +10,14 @@ from contracts.shapes import register_shapes, register_system_shapes, register_r
 
 A = 'pydoctor/astbuilder.py'
 M = 'pydoctor/model.py'
-SPECS = ['c04']
+SPECS = ['c04', 'c02']
 ASSUMPTIONS = [
     'analysing another module (getProcessedModule) only adds bindings to alias tables of other scopes, it never rebinds a name '
     '(re-exports leave aliases for objects moved away; generated projects bind each name once per scope)',
     'the parser guarantees: an absolute from-import has a module name, every import statement has at least one alias, level >= 0',
-    'the walk of dotted names (Documentable.expandName with more than one part), star imports, assignment aliases and find_object are '
-    'decided by the bounded native harness against CPython only',
+    'the walk of dotted names (Documentable.expandName with more than one part), star imports and assignment aliases are '
+    'decided by the bounded native harness against CPython only; System.find_object and Documentable.resolveName are verified over '
+    'an assumed expandName (the same contracts as under C07)',
 ]
 
 
@@ -172,3 +173,23 @@ def register(reg):
                  # the body of an `if` is left out (SkipNode) for the script guard and for nothing else
                  raises={'SkipNode': "isinstance(node.test, Compare) and is__name__equals__main__(cast_compare(node.test))"},
                  ensures=["not (isinstance(node.test, Compare) and is__name__equals__main__(cast_compare(node.test)))"])
+
+    # ---- a name that moved: the registry first, then the alias left at the old location (same contracts as under C07) ----------
+    reg.shapes['System'].fields.update({'rootobjects': 'Seq[Ref[Module]]'})
+    reg.contract(M, 'Documentable.expandName', params={'name': 'Str'}, returns='Str', pure=True, raises={}, assumed=True,
+                 reads=['name', 'parent', 'contents', '_localNameToFullName_map', 'allobjects'], source='name expansion (bounded native harness)')
+    reg.contract(M, 'System.objForFullName', params={'fullName': 'Str'}, returns='RefN[Documentable]', pure=True, raises={}, assumed=True,
+                 reads=['allobjects'], ensures=['result == self.allobjects.get(fullName)'], source='self.allobjects.get(fullName)')
+    reg.contract(M, 'System.find_object', params={'full_name': 'Str'}, returns='RefN[Documentable]', pure=True,
+                 reads=['name', 'parent', 'contents', '_localNameToFullName_map', 'allobjects', 'rootobjects'],
+                 requires=['all(r.name in self.allobjects for r in self.rootobjects)'],
+                 raises={'LookupError': 'lookup_fails(self, full_name)'}, result_is='found(self, full_name)',
+                 ensures=['not lookup_fails(self, full_name)', 'result == found(self, full_name)'],
+                 loops={0: Loop(index='i', invariant=['first_root(self, name_parts[0], 0) == first_root(self, name_parts[0], i)'])})
+    EXP = 'self.system.objForFullName(self.expandName(name))'
+    reg.contract(M, 'Documentable.resolveName', params={'name': 'Str'}, returns='RefN[Documentable]', pure=True,
+                 reads=['name', 'parent', 'contents', '_localNameToFullName_map', 'allobjects', 'rootobjects', 'system'], raises={},
+                 requires=['all(r.name in self.system.allobjects for r in self.system.rootobjects)'],
+                 ensures=[f'implies({EXP} is not None, result == {EXP})',
+                          f'implies({EXP} is None and not lookup_fails(self.system, self.expandName(name)), result == found(self.system, self.expandName(name)))',
+                          f'implies({EXP} is None and lookup_fails(self.system, self.expandName(name)), result is None)'])
